@@ -90,7 +90,7 @@ def strategy():
             "universe": st.lists(st.sampled_from(feats), min_size=3, max_size=30, unique=True),
             "stubs": st.fixed_dictionaries({n: table for n in sorted(STUBS)}),
             "pref": st.one_of(st.none(), st.lists(st.integers(0, 63), min_size=1, max_size=24)),
-            "mode": st.sampled_from(MODES),
+            "mode": st.sampled_from(MODES + ["pipeline", "pipeline"]),
             "kind": st.fixed_dictionaries(
                 {
                     "base": st.integers(0, 63),
@@ -151,7 +151,12 @@ def check(ctx, case):
         pick = lambda idx: {U[i % len(U)] for i in idx}
         ckp = case["ckpool"]
         t = dict(t, ckinds={ckp[i % len(ckp)] for i in t["ckinds"]})
-        cls.configure(dict(t, features=(set(U) - pick(t["drop"])) | set(t["plus"]), removes=pick(t["removes"]), adds=pick(t["adds"])))
+        feats_n = (set(U) - pick(t["drop"])) | set(t["plus"])
+        if case["kind"].get("version", 3) != 3 and sum(t["drop"]) % 2 == 0:
+            # requests declared at an older version: about half of the stubs support the old features as
+            # named, but not necessarily what the documented upgrade rules make them imply
+            feats_n |= {x for x in case["kind"].get("old", []) if x in all_features()}
+        cls.configure(dict(t, features=feats_n, removes=pick(t["removes"]), adds=pick(t["adds"])))
     env = Environment()
     env.credits_stream = None
     f = env.factory
@@ -232,9 +237,16 @@ def check(ctx, case):
         A, B, C = STUBS["stub-compiler-a"], STUBS["stub-compiler-b"], STUBS["stub-compiler-c"]
         if len(cks) < 2:
             cks = cks + cks
+        if len(cks) < 3 and kspec["base"] % 2:
+            cks = cks + [cks[0]]
         A.CKINDS = A.CKINDS | {cks[0].name}
         B.CKINDS = B.CKINDS | {cks[1].name}
         C.CKINDS = C.CKINDS | {cks[1].name}
+        if len(cks) >= 3:
+            # a third stage all three can serve: whether they qualify depends on what BOTH earlier stages did
+            for S in (A, B, C):
+                S.CKINDS = S.CKINDS | {cks[2].name}
+            ctx.cls("pipeline:chain-shaped:3-stages")
         feats = {x for i, x in enumerate(sorted(A.FEATURES)) if keep[i % len(keep)] or x in A.REMOVES}
         kind = ProblemKind(feats, version=3)
         ctx.cls("pipeline:chain-shaped")
@@ -282,7 +294,12 @@ def check(ctx, case):
     except UPNoSuitableEngineAvailableException as e:
         got, raised = None, e
     except Exception as e:
-        raise Violation(f"selection-raised:{mode}:{type(e).__name__}", f"{desc}: {e!r}", case)
+        tag = ""
+        if isinstance(e, AssertionError) and kind.version < 3 and "ProblemKind's declared version" in str(e):
+            # a built-in compiler's resulting_problem_kind sets a feature newer than the version the
+            # requested kind was declared at (known finding; any other exception keeps the bare signature)
+            tag = ":result-needs-newer-version-than-declared"
+        raise Violation(f"selection-raised:{mode}:{type(e).__name__}{tag}", f"{desc}: {e!r}", case)
 
     # ---- non-triviality: something of the right mode had to be rejected
     rejected = False
@@ -351,7 +368,7 @@ def check(ctx, case):
 
 
 def shard(ctx):
-    ctx.run_hypothesis(strategy(), lambda case: check(ctx, case), ctx.scale(3000, 80000))
+    ctx.run_hypothesis(strategy(), lambda case: check(ctx, case), ctx.scale(8000, 120000))
 
 
 def replay(ctx, case):
